@@ -38,7 +38,7 @@ RULE = ("A Hypothesis RuleBasedStateMachine draws a model description (8 kinds, 
         "lr >= 1; distinct by SHA-1 of (description, history).")
 NT_FLOOR = 0.4
 BUDGET = {"quick": 20, "thorough": 200}
-STEP_COUNT = {"quick": 6, "thorough": 20}
+STEP_COUNT = {"quick": 7, "thorough": 20}
 TECHNIQUE = ("stateful property-based testing (Hypothesis RuleBasedStateMachine) "
              "over model configurations and training histories with "
              "metamorphic input pairs as the oracle")
@@ -105,6 +105,7 @@ class Sim(object):
     self.dead = False
     self.hostile = 0
     self.big_steps = 0
+    self.optimizer_steps = 0      # weights are the initial ones while 0
 
   def f(self, x):
     y = self.model(M.model_inputs(self.desc, x))
@@ -159,6 +160,7 @@ class Sim(object):
     pairs = [(g, v) for g, v in zip(grads, tv) if g is not None]
     if pairs:
       opt.apply_gradients(pairs)
+      self.optimizer_steps += 1
 
   def hostile_update(self, op):
     """SGD(lr=1) with gradient = variable - target: the optimizer moves every
@@ -173,20 +175,28 @@ class Sim(object):
       scale = op["scale"]
       if "interpolation_logits" in v.name:
         scale = min(scale, 10.0)      # |logit| stays < 30 (F-C15-2 region)
-      kind = rs.randint(3)
+      # mixture: mostly targets that stay "alive" after the projection (mixed
+      # or positive signs), sometimes all-negative / ternary ones that collapse
+      # monotone layers onto the boundary of their feasible set.
+      kind = rs.choice([0, 0, 0, 1, 2, 3, 3, 4])
       shape = tuple(v.shape)
       if kind == 0:
         target = rs.normal(size=shape) * scale
       elif kind == 1:
         target = -np.abs(rs.normal(size=shape)) * scale * np.linspace(
             1, 2, int(np.prod(shape) or 1)).reshape(shape)
-      else:
+      elif kind == 2:
         target = rs.choice([-1.0, 0.0, 1.0], size=shape) * scale
+      elif kind == 3:
+        target = np.abs(rs.normal(size=shape)) * scale
+      else:
+        target = v.numpy() + rs.normal(size=shape) * scale * 0.3
       if "interpolation_logits" in v.name:
         target = np.clip(target, -29.0, 29.0)
       pairs.append((v - tf.constant(target.astype(np.float32)), v))
     opt.apply_gradients(pairs)
     self.hostile += 1
+    self.optimizer_steps += 1
 
   def roundtrip(self):
     self.model.set_weights(self.model.get_weights())
@@ -239,7 +249,10 @@ def judge(sim, out, after):
       f = desc["features"][j]
       out.violate("output moves against the configured direction by %.3g in "
                   "%s feature %s after %s" % (drop, typ, f["name"], after),
-                  kind="monotonicity", feature=typ, **sig)
+                  kind="monotonicity", feature=typ,
+                  unprojected_linear_init=bool(
+                      sim.optimizer_steps == 0 and _linear_init_wrong_sign(
+                          sim.model)), **sig)
       return
   lo, hi = M.bounded(desc)
   if lo is not None or hi is not None:
@@ -256,6 +269,25 @@ def judge(sim, out, after):
       out.violate("output outside [output_min, output_max] by %.3g after %s" %
                   (bv, after), kind="bounds",
                   collapsed_average=_collapsed_average(sim.model), **sig)
+
+
+def _linear_init_wrong_sign(model):
+  """True iff some tfl Linear layer with monotonicities still holds (initial)
+  weights of the wrong sign - the region of finding F-C03-3."""
+  found = [False]
+
+  def walk(layer):
+    for l in getattr(layer, "layers", []) or []:
+      walk(l)
+    if type(layer).__name__ == "Linear" and any(
+        getattr(layer, "monotonicities", None) or []):
+      from tensorflow_lattice.python import utils
+      m = np.array(utils.canonicalize_monotonicities(layer.monotonicities),
+                   np.float64)[:, None]
+      if np.any(layer.kernel.numpy() * m < 0):
+        found[0] = True
+  walk(model)
+  return found[0]
 
 
 def _collapsed_average(model):
@@ -314,7 +346,7 @@ def play(desc, ops):
       out.label("ended:non-finite-weights")
       break
     judge(sim, out, name)
-    if out.violations:
+    if any(v["sig"].get("kind") == "finite" for v in out.violations):
       break
   out.nontrivial = bool(sim.hostile > 0 or sim.big_steps > 0)
   out.info["hostile_updates"] = sim.hostile
@@ -367,6 +399,11 @@ def machine(tier, sink):
     @rule(op=op_hostile)
     def hostile_update_again(self, op):
       self.ops.append(op)
+
+    @rule(a=op_hostile, b=op_hostile)
+    def hostile_update_twice(self, a, b):
+      self.ops.append(a)
+      self.ops.append(b)
 
     @rule()
     def roundtrip_weights(self):
